@@ -95,7 +95,7 @@ Proof.
     intros r R. destruct (RM1 u q Hu QIn) as [r0 [R0 [S0 _]]]. unfold acc_u in R0. rewrite EQ, QI in R0. rewrite R in R0. inversion R0; subst r0.
     rewrite S0. apply LP. exact QIn. }
   rewrite IS1 in EC.
-  destruct (claim_uptimes_spec d id _ _ _ _ _ _ _ _ _ EC Hi PS) as [L1 [L2 [L3 [PW [T [T0 [INEQ [C0 [F0 [B0 [RD FO]]]]]]]]]]].
+  destruct (claim_uptimes_spec d id _ _ _ _ _ _ _ _ _ EC Hi PS) as [L1 [L2 [L3 [PW [T [T0 [INEQ [C0 [F0 [B0 [RD [FO _]]]]]]]]]]]].
   exists T. split; [exact T0|].
   set (w' := set_up w1 ups).
   assert (HV : forall v, ac_value (nth v ups acc_empty) = ac_value (nth v (rw_up w1) acc_empty)) by (intro v; destruct (PW v) as [_ [V _]]; exact V).
@@ -244,4 +244,35 @@ Proof.
     rewrite GE. cbn [rw_recs set_tt rw_spread rw_inc_scaling rw_next_inc].
     split; [lia|]. split; [|split; [exact SP|split; [exact IS|split; [exact NI|exact RG]]]].
     split; [exact OK'|]. split; [simpl; lia|]. split; [simpl; lia|]. split; assumption.
+Qed.
+
+(* the claim query of one position: what it reports (collected + forfeited) is covered by what the accumulators owe the position
+   once they are brought up to date *)
+Lemma claim_query_bound : forall d w cur pl now id join w' col forf byup P q,
+  prepare_claim_all_incentives w cur pl now (ps_lower q) (ps_upper q) id join = Some (w', col, forf, byup) ->
+  IW w P -> pl = sum_liq (f_range cur) P -> pos_get P id = Some q -> (forall p, In p P -> 0 < ps_liq p) ->
+  exists w1, update_uptime w pl now = Some w1 /\
+    2 * ((pr_sel d col + pr_sel d forf) * rw_inc_scaling w * P18) <= 2 * usum NU (fun u => owedU u d w1 cur q) + Z.of_nat NU * P18 /\
+    0 <= pr_sel d col /\ 0 <= pr_sel d forf.
+Proof.
+  intros d w cur pl now id join w' col forf byup P q H [OK [Hi [LN [HPT HRM]]]] HL Q LP.
+  unfold prepare_claim_all_incentives in H.
+  destruct (update_uptime w pl now) as [w1|] eqn:EU; [|discriminate H]. cbv beta iota in H.
+  destruct ((now - join) * 1000000000 <? 0); [discriminate H|].
+  destruct (uptime_growth_outside w1 cur (ps_lower q) (ps_upper q)) as [outs|] eqn:EO; [|discriminate H]. cbv beta iota in H.
+  destruct (claim_uptimes (rw_up w1) outs uptimes_ns id ((now - join) * 1000000000) (rw_inc_scaling w1)) as [[[[ups c1] f1] b1]|] eqn:EC; [|discriminate H].
+  inversion H; subst w' col forf byup. clear H. exists w1. split; [reflexivity|].
+  destruct (stage_accrue cur w pl now w1 P d EU OK Hi LN HPT HRM HL) as [_ [PT1 [RM1 [_ [_ [_ [IS1 [LN1 _]]]]]]]].
+  assert (QIn : In q P) by (eapply pos_get_in; exact Q). assert (QI : ps_id q = id) by (eapply pos_get_id; exact Q).
+  destruct (PT1 q QIn) as [Hlu TK].
+  assert (PS : Forall (pos_shares id) (rw_up w1)).
+  { apply Forall_forall. intros a Ha. destruct (In_nth _ _ acc_empty Ha) as [u [Hu EQ]]. rewrite LN1 in Hu.
+    intros r R. destruct (RM1 u q Hu QIn) as [r0 [R0 [S0 _]]]. unfold acc_u in R0. rewrite EQ, QI in R0. rewrite R in R0. inversion R0; subst r0.
+    rewrite S0. apply LP. exact QIn. }
+  rewrite IS1 in EC.
+  destruct (claim_uptimes_spec d id _ _ _ _ _ _ _ _ _ EC Hi PS) as [_ [_ [_ [_ [T [T0 [INEQ [C0 [F0 [_ [_ [FO ZR]]]]]]]]]]]].
+  destruct (outs_view d _ _ _ _ _ EO Hlu) as [LO OV]. rewrite LN1 in LO, OV.
+  assert (TG1 : usum NU (fun u => owedU u d w1 cur q) = lsum2 (owedAO d id) (rw_up w1) outs).
+  { rewrite <- QI. apply target_lsum'; assumption. }
+  rewrite TG1. rewrite ZR, LN1 in INEQ. split; [lia|]. split; assumption.
 Qed.
